@@ -19,7 +19,11 @@ import (
 )
 
 func init() {
-	register("C03", "model_checking", func(r *ev.Run) { outCampaign(r, "C03") })
+	register("C03", "model_checking", func(r *ev.Run) {
+		outCampaign(r, "C03")
+		compositionLeg(r)
+		liveOutputLeg(r)
+	})
 	register("C04", "model_checking", func(r *ev.Run) {
 		ctlCampaign(r, "C04")
 		ctlLiveness(r)
@@ -527,4 +531,16 @@ func outByteOracles(o *brk.OutResult) (c03fails, c11fails bool) {
 		}
 	}
 	return
+}
+
+// compositionLeg model-checks Curlrevshell.tla: BrokerOut composed with Opshell over the operator channel.
+func compositionLeg(r *ev.Run) {
+	res, err := tlcrun.Run(tlcrun.Opts{Module: "Curlrevshell", Config: "Curlrevshell", Workers: 8, Timeout: 15 * time.Minute})
+	if err != nil || res.TimedOut || res.Violated != "" || !res.OK {
+		r.Inconclusive("TLC Curlrevshell: err=%v violated=%q\n%s", err, resViolated(res), tail(res))
+		return
+	}
+	r.Add("states", res.Distinct)
+	r.Add("transitions", res.Generated)
+	r.Append("tlc_invariants_checked", "Curlrevshell (BrokerOut x Opshell over the operator channel): DisplayedIsPartOfSent NothingLostWithoutCtrlO NoticesAlwaysDisplayed UnmutedAndUncancelledLosesNothing")
 }
